@@ -32,6 +32,16 @@ registry! {
     #[cfg(feature = "weak-ptrs")]
     h_fin::h_fin_weak_n3,
     h_fin::h_fin_twin,
+    h_api::h_unwrap,
+    #[cfg(feature = "weak-ptrs")]
+    h_api::h_unwrap_weak,
+    h_api::h_unwrap_twin,
+    h_api::h_nest_n2,
+    h_api::h_nest_twin,
+    #[cfg(feature = "weak-ptrs")]
+    h_cyclic::h_cyclic,
+    #[cfg(feature = "weak-ptrs")]
+    h_cyclic::h_cyclic_twin,
     #[cfg(feature = "weak-ptrs")]
     h_weak::h_weak_prog_n2,
     #[cfg(feature = "weak-ptrs")]
